@@ -14,29 +14,31 @@ From PV Require Import Lib.Bytes Gen.ShellGrammar Gen.ShellTables Model.ShellLex
   Proofs.PosixGrammar Proofs.PosixAccepted Proofs.PosixWitness.
 Import ListNotations.
 
-(* ---- the main theorem, with its guard ---- *)
+(* ---- the full statement ---- *)
 
-(* For every tree that is the POSIX reading of its own text and does not use
-   `for name ; do` (supported = faithful && nosemi), and whose words are of the
-   class their position demands (wf_words: in particular a command name is never
-   spelled like a reserved word): the lexer turns the printed program into
-   exactly the intended terminals, and these are a sentence of shell.y.
-   No size bound. *)
-Theorem C11_posix_accepted_partial : forall p : program,
-  wf_words p = true -> supported p = true ->
+(* For every tree that is the POSIX reading of its own text (faithful: a list
+   before a closing reserved word ends in a separator or in a compound command
+   without redirections -- a property of the specification, not of pkglint) and
+   whose words are classified by POSIX's rule (wf_words_posix: a reserved word
+   is special only as the first word of a command; any word but esac is a case
+   pattern): the lexer turns the printed program into exactly the intended
+   terminals, and these are a sentence of shell.y.  No size bound, no guard. *)
+Definition C11_full : Prop := forall p : program,
+  wf_words_posix p = true -> faithful p = true ->
   shell_lex (tokens p) = Lexed (terms p) /\ derives start_symbol (terms p).
-Proof. exact posix_accepted. Qed.
-Print Assumptions C11_posix_accepted_partial.
 
-(* The lexer is right on the whole fragment, `for name ; do` included ... *)
+Theorem C11_posix_accepted : C11_full.
+Proof. exact posix_accepted. Qed.
+Print Assumptions C11_posix_accepted.
+
+(* its two halves *)
 Theorem C11_lexer_recovers_terms : forall p : program,
-  wf_words p = true -> faithful p = true -> shell_lex (tokens p) = Lexed (terms p).
+  wf_words_posix p = true -> faithful p = true -> shell_lex (tokens p) = Lexed (terms p).
 Proof. exact lexer_recovers_terms. Qed.
 Print Assumptions C11_lexer_recovers_terms.
 
-(* ... and the grammar covers the whole fragment except `for name ; do`. *)
 Theorem C11_fragment_in_grammar : forall p : program,
-  wf_words p = true -> nosemi_clist p = true -> derives start_symbol (terms p).
+  wf_words_posix p = true -> derives start_symbol (terms p).
 Proof. exact terms_derivable. Qed.
 Print Assumptions C11_fragment_in_grammar.
 
@@ -52,54 +54,16 @@ Theorem C11_lexer_defined : forall ts : list tok,
 Proof. exact shell_lex_defined. Qed.
 Print Assumptions C11_lexer_defined.
 
-(* ---- the unguarded statement is false of the faithful model ---- *)
-
-(* "Every tree that is the POSIX reading of its own text, with words classified
-   by POSIX's rule (a reserved word is special only as the first word of a
-   command), is accepted by lexer + parser."  wf_words_posix is weaker than wf_words: *)
-Theorem C11_wf_words_is_stricter : forall p : program, wf_words p = true -> wf_words_posix p = true.
-Proof. exact wf_words_is_stricter. Qed.
-Print Assumptions C11_wf_words_is_stricter.
-
-Definition C11_full : Prop := forall p : program,
-  wf_words_posix p = true -> faithful p = true -> model_accepts p = true.
-
-(* for i ; do echo ; done         (shell.y lacks for_clause : For name sequential_sep do_group) *)
-Theorem C11_for_semicolon_refuted : rejected_witness wit_for_semi.
-Proof. exact wit_for_semi_rejected. Qed.
-Print Assumptions C11_for_semicolon_refuted.
-(* V=$$x fi                       (atCommandStart stays true after an assignment word) *)
-Theorem C11_name_after_assignment_refuted : rejected_witness wit_name_after_assignment.
-Proof. exact wit_name_after_assignment_rejected. Qed.
-Print Assumptions C11_name_after_assignment_refuted.
-
-Theorem C11_full_refuted : ~ C11_full.
-Proof. exact full_refuted. Qed.
-Print Assumptions C11_full_refuted.
-
-(* which of the two is at fault, and which hypothesis of the partial theorem excludes each *)
-Theorem C11_grammar_at_fault :
-  shell_lex (tokens wit_for_semi) = Lexed (terms wit_for_semi) /\ lr_accepts (terms wit_for_semi) = false.
-Proof. exact grammar_at_fault. Qed.
-Print Assumptions C11_grammar_at_fault.
-Theorem C11_lexer_at_fault :
-  lr_accepts (terms wit_name_after_assignment) = true /\
-  shell_lex (tokens wit_name_after_assignment) <> Lexed (terms wit_name_after_assignment).
-Proof. exact lexer_at_fault. Qed.
-Print Assumptions C11_lexer_at_fault.
-Theorem C11_witnesses_outside_guard :
-  supported wit_for_semi = false /\ wf_words wit_for_semi = true /\
-  supported wit_name_after_assignment = true /\ wf_words wit_name_after_assignment = false.
-Proof. exact witnesses_outside_guard. Qed.
-Print Assumptions C11_witnesses_outside_guard.
-
-(* the four former witnesses ({ case x in esac }, case x in esac | { echo ; },
-   case x in a ) echo ;; esac ; ( { echo ; } ), > out echo esac), repaired in /repo *)
-Theorem C11_repaired_witnesses_accepted :
-  forallb (fun p => wf_words p && supported p && model_accepts p)
-          [was_after_esac; was_pipe_after_case; was_paren_after_case; was_initial_counters] = true.
+(* The seven counterexamples this check found on the pinned tree (for i ; do ... ; V=$$x fi ;
+   a reserved word or an assignment-shaped word as a later case pattern ; { case x in esac } ;
+   case x in esac | { echo ; } ; case ... ;; esac ; ( { echo ; } ) ; > out echo esac) are repaired
+   in /repo: each satisfies the hypotheses and is accepted by lexer model + regenerated
+   tables, with a checked derivation. *)
+Theorem C11_former_witnesses_accepted :
+  forallb (fun p => wf_words_posix p && faithful p && model_accepts p && lr_accepts_certified (terms p))
+          former_witnesses = true.
 Proof. exact repaired_accepted. Qed.
-Print Assumptions C11_repaired_witnesses_accepted.
+Print Assumptions C11_former_witnesses_accepted.
 
 (* ---- grammar and tables ---- *)
 
